@@ -476,3 +476,51 @@ Print Assumptions c01_concrete_example_runs.
 Print Assumptions c01_concrete_example_least_model.
 
 Print Assumptions std_interp_ok_nil. Print Assumptions arities_functional_dec. Print Assumptions tc_arities_functional.
+
+(* ================= the ORDER in which the strata are evaluated =================
+   The planner theorems above take the SCC partition as an input checked by the decidable PlanWf.sccs_ok (the macro gets it from
+   petgraph's condensation).  Plan/PlanOrder.v says exactly what that check means for the ORDER of the strata, and that it is
+   needed: a partition that puts a consumer before one of its producers is rejected, and on programs with a deep stratum DAG the
+   plan compiled from such a partition makes the engine model lose derivable tuples.  The tie runs programs of that kind
+   (gen/scc_shapes.py: 4-13 strata, producers at different depths, recursive strata in the middle, shuffled text order). *)
+From AV Require Plan.PlanOrder.
+
+Theorem c01_strata_order_exact : forall P sccs,
+  PlanWf.sccs_ok P sccs = true <->
+  (forall sc j, In sc sccs -> In j sc -> (j < length P)%nat)
+  /\ (forall j, (j < length P)%nat -> PlanWf.part_count sccs j = 1%nat)
+  /\ (forall j j' r r', nth_error P j = Some r -> nth_error P j' = Some r' ->
+        exists k k', PlanWf.part_index sccs j 0 = Some k /\ PlanWf.part_index sccs j' 0 = Some k'
+          /\ (PlanOrder.reads_from r r' = true -> (k' <= k)%nat) /\ (PlanOrder.aggregates_from r r' = true -> (k' < k)%nat)).
+Proof. exact PlanOrder.sccs_ok_spec. Qed.
+
+Theorem c01_consumer_before_producer_rejected : forall P sccs j j' r r' k k',
+  nth_error P j = Some r -> nth_error P j' = Some r' -> PlanOrder.reads_from r r' = true ->
+  PlanWf.part_index sccs j 0 = Some k -> PlanWf.part_index sccs j' 0 = Some k' -> (k < k')%nat ->
+  PlanWf.sccs_ok P sccs = false.
+Proof. exact PlanOrder.sccs_ok_rejects_consumer_first. Qed.
+
+(* six strata, a recursive one in the middle, `hot` reached over chains of length 1 and 4, `alarm` reading it: in dependency
+   order the planned run is the least model; in the order of a single-visit breadth-first level numbering (alarm before hot)
+   the partition is rejected, the compiled plan is rejected by the validator, and alarm stays empty (4 tuples derivable) *)
+Example c01_deep_dag_dependency_order :
+  PlanWf.wf_core PlanOrder.dd_arities PlanOrder.dd_prog = true
+  /\ PlanWf.sccs_ok PlanOrder.dd_prog PlanOrder.dd_good = true
+  /\ PlanOrder.same_rows (PlanOrder.run_rows PlanOrder.dd_arities PlanOrder.dd_prog PlanOrder.dd_good PlanOrder.dd_facts)
+                         (naive_fix std_interp 200%nat PlanOrder.dd_prog PlanOrder.dd_facts) = true.
+Proof. split; [exact PlanOrder.dd_wf|]. split; [exact (proj1 PlanOrder.dd_good_ok)|exact (proj1 PlanOrder.dd_good_runs)]. Qed.
+
+Example c01_deep_dag_consumer_first_loses_tuples :
+  PlanWf.sccs_ok PlanOrder.dd_prog PlanOrder.dd_bfs = false
+  /\ validate PlanOrder.dd_arities PlanOrder.dd_prog (PlanModel.compile_model PlanOrder.dd_arities PlanOrder.dd_prog PlanOrder.dd_bfs) = false
+  /\ PlanOrder.facts_of 5%nat (PlanOrder.run_rows PlanOrder.dd_arities PlanOrder.dd_prog PlanOrder.dd_bfs PlanOrder.dd_facts) = []
+  /\ PlanOrder.facts_of 5%nat (naive_fix std_interp 200%nat PlanOrder.dd_prog PlanOrder.dd_facts) = [[1]; [2]; [3]; [4]]%Z.
+Proof.
+  split; [exact PlanOrder.dd_bfs_rejected|]. split; [exact (proj1 PlanOrder.dd_bfs_loses_tuples)|].
+  split; [exact (proj1 (proj2 PlanOrder.dd_bfs_loses_tuples))|exact (proj1 (proj2 (proj2 PlanOrder.dd_bfs_loses_tuples)))].
+Qed.
+
+Print Assumptions c01_strata_order_exact.
+Print Assumptions c01_consumer_before_producer_rejected.
+Print Assumptions c01_deep_dag_dependency_order.
+Print Assumptions c01_deep_dag_consumer_first_loses_tuples.
